@@ -102,7 +102,7 @@ def report(pid, tier, seed, t0, res):
     if covered:
         bp = '%s/coverage/%s.json' % (core.VERIF, pid)
         if os.environ.get('VERIF_RECORD_COVERAGE') == '1':
-            os.makedirs(core.VERIF + '/coverage', exist_ok=True); json.dump({'property': pid, 'covered': covered}, open(bp, 'w'), indent=0)
+            os.makedirs(core.VERIF + '/coverage', exist_ok=True); json.dump({'property': pid, 'covered': covered, 'slow': res.get('slow_ids', [])}, open(bp, 'w'), indent=0)
         else:
             try: basec = set(json.load(open(bp))['covered'])
             except (OSError, ValueError, KeyError): basec = set()
@@ -117,6 +117,8 @@ def report(pid, tier, seed, t0, res):
         if any(core_match(k, obj) for k in known): continue
         p = core.write_replay(pid, obj); nviol += 1
         print('VIOLATION property=%s replay=%s%s' % (pid, p, '' if found or obj.get('kind') == 'correspondence' and obj.get('input_words') else ' no-failing-input-found'))
+    try: res.setdefault('assumptions', {}).update(core.lib_assumptions(pid))
+    except Exception as e: res.setdefault('assumptions', {})['library theorems'] = 'FAILED TO CHECK: %r' % e
     seen, badax = core.check_assumptions(res.get('assumptions', {}))
     for b, ax in badax[:5]:
         p = core.write_replay(pid, {'kind': 'unproved', 'theorem': b, 'axiom': ax, 'how_found': 'Print Assumptions lists an axiom outside the allow-list'}); nviol += 1
